@@ -489,7 +489,13 @@ def oracle_c09(ctx, budget_s):
                      "RandomGen and IterateGen return min(requested, available) sequences, pairwise distinct as "
                      "solutions (a printed sequence repeats at most as often as the product of the weights of its "
                      "uncrossed weighted levels)")
-    for case in gen_cases(ctx, budget_s, max_trials=5):
+    def first(desc):
+        # the shapes where the number of available solutions is easy to get wrong: weights in a multi-crossing block,
+        # exclusions together with a preamble
+        ks = block_kinds(desc["block"])
+        has_excl = any(c["k"] == "Exclude" for c in D.all_constraints(desc["block"]))
+        return ("multicross" in ks and has_weights(desc)) or (has_excl and any(f["window"] for f in desc["factors"]))
+    for case in gen_cases(ctx, budget_s, max_trials=5, prefer=first):
         valid = case.valid_seqs()
         if valid is None:
             continue
